@@ -4,6 +4,9 @@
 import VsgModel.Engine.RuleRun
 import VsgModel.Engine.Relations
 import VsgModel.Check.Verdict
+import VsgProofs.Lemmas.BaseWsEffects
+import VsgProofs.Lemmas.BaseBindEffects
+import VsgProofs.Lemmas.PostPhase1
 namespace Vsgm.C02
 open Vsgm
 
@@ -67,5 +70,211 @@ theorem commentEndsLine_next (l : List Tok) (h : commentEndsLine l = true) (i : 
 
 example : commentEndsLine [⟨4, .comment, "-- c".toList⟩, ⟨2, .cr, []⟩, ⟨9, .code, "a".toList⟩] = true := by decide
 example : commentEndsLine [⟨4, .comment, "-- c".toList⟩, ⟨9, .code, "a".toList⟩] = false := by decide
+
+/-! ### layer B: the whitespace family — BEGIN ag_bws -/
+
+/-- the strictly-layout owners keep every comment verbatim (all actions, all token lists, under the guard) -/
+theorem bfix_ws_commentSeq_partial (owner : String) (params action : Base.KV) (old new : List Tok)
+    (ho : owner ∈ Base.wsLayoutOwners) (h : Base.fixByOwner owner params action old = some (.ok new))
+    (hg : Base.wsGuard (fun k => k.isLayout) owner params action old = true) : commentSeq old = commentSeq new := by
+  rw [Base.fixByOwner_ws _ _ _ _ (Base.ws_layout_mem owner ho)] at h
+  exact (Base.ws_layoutOnly owner params action old new (Or.inl ho) h hg).commentSeq
+
+/-- whitespace_002 and comment_100 change comment VALUES, but only in blanks and tabs: the comment sequences
+    agree after deleting blanks and tabs -/
+theorem bfix_wsComment_commentSeq_modBlanks (owner : String) (params action : Base.KV) (old new : List Tok)
+    (ho : owner ∈ Base.wsOwners) (h : Base.fixByOwner owner params action old = some (.ok new))
+    (hg : Base.wsGuard (fun k => k.isLayout) owner params action old = true) :
+    (nonLayout old).map Verdict.normTok = (nonLayout new).map Verdict.normTok := by
+  rw [Base.fixByOwner_ws _ _ _ _ ho] at h
+  have := Base.ws_layoutOnlyW owner params action old new ho h hg
+  unfold Verdict.layoutOnlyW at this
+  simpa using this
+
+/-- **whitespace_between_tokens (171 rules)**: whatever surrounds the region (`pre`, `suf`), a comment never
+    absorbs what follows it — `_partial`: unless the fix INSERTS a whitespace directly after a comment, i.e.
+    `lTokens[0]` is a comment / pragma and `lTokens[1]` is not whitespace -/
+theorem bfix_wsBetween_commentEndsLine_partial (params action : Base.KV) (old new pre suf : List Tok) (nos : Base.NoS)
+    (hn : Base.nosOf (params.get "number_of_spaces") = .ok nos)
+    (hg : ∀ t ∈ Base.WsBetween.touched nos old, t.kind ≠ .cr)
+    (hq : ∀ a t1, old[0]? = some a → old[1]? = some t1 → t1.kind ≠ .ws → a.kind ≠ .comment ∧ a.kind ≠ .pragma)
+    (hpre : ∀ p, pre.getLast? = some p → p.kind ≠ .comment ∧ p.kind ≠ .pragma)
+    (h : Base.fixByOwner Base.wsBetweenOwner params action old = some (.ok new))
+    (hc : commentEndsLine (pre ++ old ++ suf) = true) : commentEndsLine (pre ++ new ++ suf) = true := by
+  rw [Base.fixByOwner_ws _ _ _ _ (by decide +kernel)] at h
+  simp only [Base.wsFixByOwner, beq_self_eq_true, if_true, Option.some.injEq, hn, bind, Except.bind] at h
+  apply Base.WsBetween.fixV_celSafe _ nos action old new hg _ h pre suf _ hc
+  · intro _ t1 h1 hk x hx
+    cases ha : old[0]? with
+    | none => rw [ha] at hx; cases hx
+    | some a =>
+      rw [ha] at hx
+      have hax : a = x := by simpa using hx
+      subst hax
+      have := hq a t1 ha h1 hk
+      simp [Kind.isCmt, this.1, this.2]
+  · intro k hk
+    rw [List.getLast?_map] at hk
+    cases hp : pre.getLast? with
+    | none => simp [hp] at hk
+    | some p =>
+      simp [hp] at hk
+      have := hpre p hp
+      rw [← hk]; simp [Kind.isCmt, this.1, this.2]
+
+/-- the excluded case is real for the function (hand-built list; no extractor of the family delivers it,
+    a `--` comment being followed by a line break and a line break never being the right token of a pair):
+    a whitespace inserted between a comment and its line break -/
+theorem bfix_wsBetween_commentEndsLine_witness :
+    ∃ old new, Base.fixByOwner Base.wsBetweenOwner [("number_of_spaces", .int 1)] [("spaces", .int 1)] old = some (.ok new) ∧
+      commentEndsLine old = true ∧ commentEndsLine new = false :=
+  ⟨[⟨13, .comment, "-- c".toList⟩, ⟨5, .cr, "\n".toList⟩],
+   [⟨13, .comment, "-- c".toList⟩, ⟨Gen.wsCls, .ws, " ".toList⟩, ⟨5, .cr, "\n".toList⟩],
+   by decide +kernel, by decide +kernel, by decide +kernel⟩
+
+/-- the pure deletions (remove_spaces_before_token_rule, whitespace_005, whitespace_008) and the two
+    value-only edits (comment_100; whitespace_002 on a comment) are safe in every context -/
+theorem bfix_wsDeletions_commentEndsLine_partial (owner : String) (params action : Base.KV) (old new pre suf : List Tok)
+    (ho : owner ∈ [Base.removeBeforeOwner, Base.ws005Owner, Base.ws008Owner, Base.comment100Owner])
+    (hg : Base.wsGuard (fun k => k != .cr) owner params action old = true)
+    (hpre : ∀ p, pre.getLast? = some p → p.kind ≠ .comment ∧ p.kind ≠ .pragma)
+    (h : Base.fixByOwner owner params action old = some (.ok new))
+    (hc : commentEndsLine (pre ++ old ++ suf) = true) : commentEndsLine (pre ++ new ++ suf) = true := by
+  have hpre' : Base.lastNotCmt (pre.map (·.kind)) := by
+    intro k hk
+    rw [List.getLast?_map] at hk
+    cases hp : pre.getLast? with
+    | none => simp [hp] at hk
+    | some p =>
+      simp [hp] at hk
+      have := hpre p hp
+      rw [← hk]; simp [Kind.isCmt, this.1, this.2]
+  have hP : ∀ k : Kind, (k != Kind.cr) = true → k ≠ .cr := fun k hk => by simpa using hk
+  simp only [List.mem_cons, List.not_mem_nil, or_false] at ho
+  rcases ho with rfl | rfl | rfl | rfl
+  · rw [Base.fixByOwner_ws _ _ _ _ (by decide +kernel)] at h
+    have e1 : (Base.removeBeforeOwner == Base.wsBetweenOwner) = false := by decide
+    have e2 : (Base.removeBeforeOwner == Base.nSpacesOwner) = false := by decide
+    have e3 : (Base.removeBeforeOwner == Base.boundedOwner) = false := by decide
+    simp only [Base.wsFixByOwner, e1, e2, e3, Bool.false_eq_true, if_false, beq_self_eq_true, if_true, Option.some.injEq] at h
+    simp only [Base.wsGuard, e1, e2, e3, Bool.false_eq_true, if_false, beq_self_eq_true, if_true, Base.RemoveBefore.guard] at hg
+    exact Base.RemoveBefore.fixV_celSafe old new (Base.optAll_spec _ hP _ hg) h pre suf hpre' hc
+  · rw [Base.fixByOwner_ws _ _ _ _ (by decide +kernel)] at h
+    have e1 : (Base.ws005Owner == Base.wsBetweenOwner) = false := by decide
+    have e2 : (Base.ws005Owner == Base.nSpacesOwner) = false := by decide
+    have e3 : (Base.ws005Owner == Base.boundedOwner) = false := by decide
+    have e4 : (Base.ws005Owner == Base.removeBeforeOwner) = false := by decide
+    have e5 : (Base.ws005Owner == Base.ws001Owner) = false := by decide
+    have e6 : (Base.ws005Owner == Base.ws002Owner) = false := by decide
+    simp only [Base.wsFixByOwner, e1, e2, e3, e4, e5, e6, Bool.false_eq_true, if_false, beq_self_eq_true, if_true, Option.some.injEq] at h
+    simp only [Base.wsGuard, e1, e2, e3, e4, e5, e6, Bool.false_eq_true, if_false, beq_self_eq_true, if_true, Base.Ws005.guard] at hg
+    exact Base.Ws005.fixV_celSafe old new (Base.optAll_spec _ hP _ hg) h pre suf hpre' hc
+  · rw [Base.fixByOwner_ws _ _ _ _ (by decide +kernel)] at h
+    have e1 : (Base.ws008Owner == Base.wsBetweenOwner) = false := by decide
+    have e2 : (Base.ws008Owner == Base.nSpacesOwner) = false := by decide
+    have e3 : (Base.ws008Owner == Base.boundedOwner) = false := by decide
+    have e4 : (Base.ws008Owner == Base.removeBeforeOwner) = false := by decide
+    have e5 : (Base.ws008Owner == Base.ws001Owner) = false := by decide
+    have e6 : (Base.ws008Owner == Base.ws002Owner) = false := by decide
+    have e7 : (Base.ws008Owner == Base.ws005Owner) = false := by decide
+    simp only [Base.wsFixByOwner, e1, e2, e3, e4, e5, e6, e7, Bool.false_eq_true, if_false, beq_self_eq_true, if_true, Option.some.injEq] at h
+    simp only [Base.wsGuard, e1, e2, e3, e4, e5, e6, e7, Bool.false_eq_true, if_false, beq_self_eq_true, if_true, Base.Ws008.guard] at hg
+    exact Base.Ws008.fixV_celSafe old new (Base.optAll_spec _ hP _ hg) h pre suf hpre' hc
+  · rw [Base.fixByOwner_ws _ _ _ _ (by decide +kernel), Base.wsFix_comment100] at h
+    exact Base.Comment100.fixV_celSafe action old new (by simpa using h) pre suf hpre' hc
+
+/-- **every strictly-layout owner (and whitespace_002 on whitespace), all actions**: a region that contains no
+    comment / pragma token can be repaired in any context without a comment absorbing anything (covers
+    n_spaces_before_and_after_tokens and spaces_before_and_after_tokens_when_bounded_by_tokens, whose
+    insertion points depend on the action).  The guard with the trivial predicate only asks whitespace_001's
+    region to have ≥ 2 tokens. -/
+theorem bfix_ws_commentEndsLine_noComment_partial (owner : String) (params action : Base.KV) (old new pre suf : List Tok)
+    (ho : owner ∈ Base.wsLayoutOwners ∨ (owner = Base.ws002Owner ∧ Base.Ws002.isCommentAction action = false))
+    (hg : Base.wsGuard (fun _ => true) owner params action old = true)
+    (hn : ∀ t ∈ old, t.kind ≠ .comment ∧ t.kind ≠ .pragma)
+    (hpre : ∀ p, pre.getLast? = some p → p.kind ≠ .comment ∧ p.kind ≠ .pragma)
+    (h : Base.fixByOwner owner params action old = some (.ok new))
+    (hc : commentEndsLine (pre ++ old ++ suf) = true) : commentEndsLine (pre ++ new ++ suf) = true := by
+  have hmem : owner ∈ Base.wsOwners := by
+    rcases ho with ho | ⟨rfl, _⟩
+    · exact Base.ws_layout_mem owner ho
+    · decide +kernel
+  rw [Base.fixByOwner_ws _ _ _ _ hmem] at h
+  apply Base.ws_celSafe_noCmt owner params action old new ho h hg _ pre suf _ hc
+  · intro t ht
+    have := hn t ht
+    simp [Kind.isCmt, this.1, this.2]
+  · intro k hk
+    rw [List.getLast?_map] at hk
+    cases hp : pre.getLast? with
+    | none => simp [hp] at hk
+    | some p =>
+      simp [hp] at hk
+      have := hpre p hp
+      rw [← hk]; simp [Kind.isCmt, this.1, this.2]
+
+/-! END ag_bws -/
+
+/-! ### BEGIN ag_bind (indent / vertical spacing / post-phase-1) -/
+
+/-! ### layer B: indent and vertical-spacing families, post-phase-1 normalisation — comments kept -/
+
+theorem bfix_indent_commentSeq_partial (owner : String) (params action : Base.KV) (old new : List Tok)
+    (ho : owner ∈ Base.indentOwners) (h : Base.fixByOwner owner params action old = some (.ok new))
+    (hok : Base.Indent.ToiOk (Base.strAction action) old) : commentSeq old = commentSeq new := by
+  obtain ⟨style, size, h'⟩ := Base.Bind.indent_fixV_of_owner owner params action old new ho h
+  exact (Base.Indent.fixV_layoutOnly _ _ _ _ _ _ _ h' hok).commentSeq
+
+/-- every indent rule, every action / style / size / indent level, EVERY token list: a comment that
+    ended its line inside the tokens of interest still does afterwards -/
+theorem bfix_indent_commentEndsLine (owner : String) (params action : Base.KV) (old new : List Tok)
+    (ho : owner ∈ Base.indentOwners) (h : Base.fixByOwner owner params action old = some (.ok new))
+    (hc : commentEndsLine old = true) : commentEndsLine new = true := by
+  obtain ⟨style, size, h'⟩ := Base.Bind.indent_fixV_of_owner owner params action old new ho h
+  exact (Base.Indent.fixV_shape _ _ _ _ _ _ _ h').commentEndsLine hc
+
+/-- every vertical-spacing rule, every action, every token list: a comment that ended its line inside the
+    tokens of interest still does afterwards (no hypothesis on the region at all) -/
+theorem bfix_blankline_commentEndsLine (owner : String) (params action : Base.KV) (old new : List Tok)
+    (ho : owner ∈ Base.blankLineOwners) (h : Base.fixByOwner owner params action old = some (.ok new))
+    (hc : commentEndsLine old = true) : commentEndsLine new = true := by
+  rcases Base.Bind.blankline_shape owner params action old new ho h with ⟨_, hr⟩ | hr | hr | ⟨pre, suf, c⟩
+  · rw [hr]; exact Base.BlankLine.commentEndsLine_insert_front _ _ old hc
+  · rw [hr]; exact Base.BlankLine.commentEndsLine_insert_back _ _ old hc
+  · rw [hr]; exact hc
+  · exact c.commentEndsLine hc
+
+/-- comments are kept by every vertical-spacing rule when inserting (always) and when removing from a
+    region without code / comments -/
+theorem bfix_blankline_commentSeq_partial (owner : String) (params action : Base.KV) (old new : List Tok)
+    (ho : owner ∈ Base.blankLineOwners) (h : Base.fixByOwner owner params action old = some (.ok new))
+    (hreg : new.length < old.length → nonLayout old = []) : commentSeq old = commentSeq new := by
+  suffices hl : LayoutOnly old new from hl.commentSeq
+  rcases Base.Bind.blankline_shape owner params action old new ho h with ⟨_, hr⟩ | hr | hr | ⟨pre, suf, c⟩
+  · rw [hr]; exact Base.BlankLine.layoutOnly_insert_front _ _ old
+  · rw [hr]; exact Base.BlankLine.layoutOnly_insert_back _ _ old
+  · rw [hr]; rfl
+  · rw [c.layoutOnly_iff]
+    unfold Base.BlankLine.Cut at c
+    by_cases hlen : new.length < old.length
+    · have hz := hreg hlen
+      rw [c, nonLayout_append, nonLayout_append] at hz
+      simp only [List.append_eq_nil_iff] at hz
+      exact ⟨hz.1.1, hz.2⟩
+    · have hl := congrArg List.length c
+      simp only [List.length_append] at hl
+      have h1 : pre = [] := List.eq_nil_of_length_eq_zero (by omega)
+      have h2 : suf = [] := List.eq_nil_of_length_eq_zero (by omega)
+      rw [h1, h2]; exact ⟨rfl, rfl⟩
+
+/-- the post-phase-1 normalisation keeps every comment of every token list -/
+theorem postPhase1_commentSeq (blCls : Nat) (l : List Tok) :
+    commentSeq (Post.postPhase1 blCls l) = commentSeq l := by
+  have hl : LayoutOnly l (Post.postPhase1 blCls l) := by
+    unfold LayoutOnly Post.postPhase1
+    rw [Post.fixTrailingWhitespace_eq, Post.fixBlankLines_eq, Post.ftwGo_nonLayout, Post.fblGo_nonLayout]
+  exact hl.commentSeq.symm
+
+/-! ### END ag_bind -/
 
 end Vsgm.C02
